@@ -81,6 +81,11 @@ func (this *OneDimensionalCodeWriter) Encode(
 		}
 	}
 
+	if sidesMargin < 0 {
+		return nil, gozxing.NewWriterException(
+			"IllegalArgumentException: Negative margin is not allowed: %d", sidesMargin)
+	}
+
 	code, e := this.encodeWithHints(contents, hints)
 	if e != nil {
 		return nil, e
